@@ -23,6 +23,7 @@ func init() {
 			{"C01.scan-cursor", ruleC11Cursor, ""},
 			{"C01.size-mirror", ruleC04SizeMirror, ""},
 			{"C01.array-bounds", ruleArrayBounds, ""},
+			{"C01.slot-loop", ruleSlotLoopExits, ""},
 			{"C01.guarded", ruleGuarded, ""},
 			{"C01.kernel", ruleKernelShapes("(*pogreb.index).bucketIndex", "(*pogreb.bucket).del", "(*pogreb.slotWriter).insert", "(*pogreb.slotWriter).write", "(*pogreb.index).createOverflowBucket", "(*pogreb.bucketIterator).next", "(*pogreb.index).newBucketIterator", "(pogreb.slot).kvSize", "(*pogreb.datalog).readKey", "(*pogreb.datalog).readKeyValue"), ""},
 		},
@@ -195,6 +196,7 @@ func init() {
 			{"C05.older-first", ruleC03OlderFirst, ""},
 			{"C05.chain-exit", ruleC01ChainExit, ""},
 			{"C05.array-bounds", ruleArrayBounds, ""},
+			{"C05.slot-loop", ruleSlotLoopExits, ""},
 			{"C05.close-all-segments", ruleCloseOrder, ""},
 			{"C05.guarded", ruleGuarded, ""},
 			{"C05.error-fatal", ruleErrorFatal("(*pogreb.DB).Compact"), "primary"},
@@ -238,6 +240,7 @@ func init() {
 		Rules: []ruleDef{
 			{"C11.chain-exit", ruleC01ChainExit, ""},
 			{"C11.array-bounds", ruleArrayBounds, ""},
+			{"C11.slot-loop", ruleSlotLoopExits, ""},
 			{"C11.cursor", ruleC11Cursor, ""},
 			{"C11.guarded", ruleGuarded, ""},
 			{"C11.one-section", ruleOneSection, ""},
